@@ -24,6 +24,7 @@ import (
 	"verifharness/vh"
 
 	"github.com/alicebob/miniredis/v2"
+	goredis "github.com/go-redis/redis/v8"
 	"github.com/muroq/redislock"
 	"github.com/projecteru2/core/cluster/calcium"
 	enginefactory "github.com/projecteru2/core/engine/factory"
@@ -207,9 +208,29 @@ func ClassifyFail(op string, err error, panicked bool) string {
 //	CtxErrOpen      Err() already reports ErrLockSessionDone but Done() is not
 //	                closed (the etcd lockContext's Err() can report the error
 //	                before the context is cancelled: the holder is not woken up)
+//	CtxCanceled     Done() is closed and Err() is context.Canceled (what a
+//	                context derived from a cancelled one looks like)
 //	CtxLive         Done() not closed, Err() == nil
 //	CtxOther        anything else
 func CtxState(ctx context.Context, wait time.Duration) string {
+	c, _ := CtxStateAt(ctx, wait)
+	return c
+}
+
+// CtxStateAt is CtxState that also reports when Done() was seen closed (zero
+// time if it was not).
+func CtxStateAt(ctx context.Context, wait time.Duration) (state string, doneAt time.Time) {
+	defer func() {
+		if state == "CtxSessionDone" || state == "CtxCanceled" {
+			return
+		}
+		doneAt = time.Time{}
+	}()
+	state = ctxState(ctx, wait, &doneAt)
+	return
+}
+
+func ctxState(ctx context.Context, wait time.Duration, doneAt *time.Time) string {
 	if ctx == nil {
 		return "CtxOther"
 	}
@@ -232,16 +253,20 @@ func CtxState(ctx context.Context, wait time.Duration) string {
 		}
 	}
 	done := closed(wait)
+	*doneAt = time.Now()
 	err := ctx.Err()
 	sessionDone := errors.Is(err, types.ErrLockSessionDone)
 	if !done && sessionDone {
 		// setError and the deferred cancel are two steps of the watcher
 		// goroutine: do not mistake the instant between them for "not woken up"
 		done = closed(10 * time.Millisecond)
+		*doneAt = time.Now()
 	}
 	switch {
 	case done && sessionDone:
 		return "CtxSessionDone"
+	case done && errors.Is(err, context.Canceled):
+		return "CtxCanceled"
 	case !done && sessionDone:
 		return "CtxErrOpen"
 	case !done && err == nil:
@@ -254,8 +279,9 @@ func CtxState(ctx context.Context, wait time.Duration) string {
 
 // Mut is one mutation of a key under the lock prefix reported by the watch.
 type Mut struct {
-	Put bool `json:"put"`
-	I   int  `json:"i"`
+	Put bool  `json:"put"`
+	I   int   `json:"i"`
+	Rev int64 `json:"rev,omitempty"` // store revision of the mutation (diagnosis / ordering across prefixes; not emitted)
 }
 
 func CoqMuts(ms []Mut) string {
@@ -492,7 +518,7 @@ func (r *EtcdRun) Finish() (muts []Mut, err error) {
 				if !known {
 					return nil, fmt.Errorf("watch: unknown lease in key %q", k)
 				}
-				muts = append(muts, Mut{Put: ev.Type == clientv3.EventTypePut, I: i})
+				muts = append(muts, Mut{Put: ev.Type == clientv3.EventTypePut, I: i, Rev: ev.Kv.ModRevision})
 			}
 		}
 	}
@@ -751,6 +777,85 @@ func (r *RedisRun) Close() { r.S.Close() }
 // Unacceptable is the log emitted when the infrastructure of a run failed: it
 // is rejected by both acceptors (a failure of an idle contender).
 func Unacceptable() []Ev { return []Ev{{Ms: 0, Kind: "EFail", I: 0, Arg: "FOther"}} }
+
+// ---------------------------------------------------------------- timing validation
+
+// Probe validates the wall-clock measurements of a run independently of what
+// the contenders observe: a goroutine that sleeps 5 ms at a time records the
+// largest gap between two wake-ups (scheduling / GC / CPU starvation of this
+// process), and, for redis, a second one times a PING against the run's
+// miniredis every 5 ms (latency of the in-process server as seen by a client).
+type Probe struct {
+	stop     chan struct{}
+	wg       sync.WaitGroup
+	mu       sync.Mutex
+	gap, lat time.Duration
+}
+
+func StartProbe(redisAddr string) *Probe {
+	p := &Probe{stop: make(chan struct{})}
+	p.wg.Add(1)
+	go func() {
+		defer p.wg.Done()
+		last := time.Now()
+		for {
+			select {
+			case <-p.stop:
+				return
+			case <-time.After(5 * time.Millisecond):
+			}
+			now := time.Now()
+			p.mu.Lock()
+			if d := now.Sub(last); d > p.gap {
+				p.gap = d
+			}
+			p.mu.Unlock()
+			last = now
+		}
+	}()
+	if redisAddr != "" {
+		cli := goredis.NewClient(&goredis.Options{Addr: redisAddr})
+		p.wg.Add(1)
+		go func() {
+			defer p.wg.Done()
+			defer cli.Close()
+			for {
+				select {
+				case <-p.stop:
+					return
+				case <-time.After(5 * time.Millisecond):
+				}
+				t0 := time.Now()
+				ctx, cancel := context.WithTimeout(context.Background(), 5*time.Second)
+				err := cli.Ping(ctx).Err()
+				cancel()
+				d := time.Since(t0)
+				if err != nil {
+					select {
+					case <-p.stop:
+						return
+					default:
+					}
+					d = 5 * time.Second
+				}
+				p.mu.Lock()
+				if d > p.lat {
+					p.lat = d
+				}
+				p.mu.Unlock()
+			}
+		}()
+	}
+	return p
+}
+
+// Stop ends the probe: the largest scheduling gap (the nominal 5 ms sleep
+// included) and the largest PING latency, in ms.
+func (p *Probe) Stop() (gapMs, pingMs int64) {
+	close(p.stop)
+	p.wg.Wait()
+	return p.gap.Milliseconds(), p.lat.Milliseconds()
+}
 
 // Pool runs job(0..n-1) with at most [width] running at a time.
 func Pool(n, width int, job func(k int)) {
